@@ -7,8 +7,18 @@ from checks.t2util import T2_ASSUMPTIONS, T2_RULE, programs_for, run_pipeline
 
 def run(tier, seed):
     rep = Report("C08", tier, seed, "proof", "./vf check C08 --tier " + tier)
+    from contracts import bitbuffer, leaf
+    from pyvc.harness import run_cases
+
+    rep.add_case_results(run_cases(leaf.specs(("weak",), tier) + bitbuffer.weak_specs()), "T1")
     progs = programs_for(tier, seed)
     run_pipeline(rep, progs, ["C08"])
+    rep.extra["explanation"] = (
+        "T1 (weak stream contract: read(n) may deliver any 0..n bytes or raise): every leaf reader and BitBuffer.read return only if "
+        "every read delivered exactly what was asked, raise EOFError on a short delivery and let a stream fault propagate; T2 per "
+        "definition: no short read is accepted on a returning path, a premature end is signalled as EOFError, and for L' >= L (a longer "
+        "input sharing the prefix) the path condition still holds and the value terms do not depend on the length ([EOF] arrays aside)"
+    )
     rep.extra["rule"] = T2_RULE
     rep.assumptions += T2_ASSUMPTIONS
     return rep
